@@ -58,7 +58,8 @@ Mid == /\ Ev("Mid") /\ UNCHANGED sc /\ last' = None
 \* x2 = Unmap(Map(x)): relative to the domain width (Linear) or to |x| (Log)
 Inv == /\ Ev("Inv") /\ UNCHANGED sc /\ last' = None
        /\ LET ev == Trace[l] IN Fin(ev.x2) /\
-             IF sc.kind = "lin" THEN RLe(RAbs(RSub(V(ev.x2), V(ev.x))), RMul(Tol9, RAdd(RAbs(RSub(V(sc.max), V(sc.min))), RAbs(V(ev.x)))))
+             \* Linear: (x - Min) and the product back are each rounded once: a few ulps of |x| + |Min| + |Max|, not 1e-9 of them
+             IF sc.kind = "lin" THEN RLe(RAbs(RSub(V(ev.x2), V(ev.x))), RShr(RAdd(RAdd(RAbs(V(sc.max)), RAbs(V(sc.min))), RAbs(V(ev.x))), 46))
              ELSE RLe(RAbs(RSub(V(ev.x2), V(ev.x))), RMul(RatI(1, 10000000), RAbs(V(ev.x))))
 Clamp == /\ Ev("Clamp") /\ UNCHANGED sc /\ last' = None
          /\ LET ev == Trace[l] IN Fin(ev.yc) /\ Fin(ev.yu) /\ V(ev.yc) = Clamp01(V(ev.yu))
